@@ -127,6 +127,7 @@ fn gen_sweep_session(seed: u64, run: u64) -> Session {
         ops,
         crashes: Vec::new(),
         midload: Vec::new(),
+        midload_at: Vec::new(),
         decisions: None,
         hold: None,
         meta: json!({"sweep": true, "base": base}),
@@ -160,6 +161,19 @@ pub fn gen_session(seed: u64, run: u64, thorough: bool) -> Session {
     }
     let root_uri = format!("file://{root}");
     let mut ops = preamble(if on_disk { Some(&root_uri) } else { None });
+    // What the editor says about position encodings (LSP 3.17 `general.positionEncodings`): most
+    // say nothing, some offer UTF-16 only, some offer UTF-8 or UTF-32 as well. Unless the server's
+    // answer picks another one, positions stay UTF-16 - which is what this client sends.
+    {
+        let mut crng = Rng::new(mix(mix(seed, run), 0xE2C0));
+        if crng.chance(1, 3) {
+            let offer: &[&str] = *crng.pick(&[&["utf-16"][..], &["utf-8", "utf-16"][..], &["utf-16", "utf-8"][..], &["utf-32", "utf-8", "utf-16"][..], &["utf-8"][..]]);
+            if let Op::Raw { msg } = &mut ops[0].op {
+                msg["params"]["capabilities"]["general"] = json!({"positionEncodings": offer});
+            }
+            ops[0].tags.push(format!("client.offers_encodings.{}", offer.join("+")));
+        }
+    }
     let mut models: Vec<DocModel> = Vec::new();
     for d in 0..ndocs {
         let mut text = gen_text(&mut rng, 40);
@@ -278,6 +292,7 @@ pub fn gen_session(seed: u64, run: u64, thorough: bool) -> Session {
         ops,
         crashes: Vec::new(),
         midload: Vec::new(),
+        midload_at: Vec::new(),
         decisions: None,
         hold: None,
         meta: json!({}),
@@ -365,6 +380,7 @@ pub struct Stats {
     pub edits_applied: u64,
     pub syntax_tree_crosschecks: u64,
     pub sweep_edits: u64,
+    pub negotiated_other_encoding: u64,
     pub nontrivial: bool,
     pub kind_key: String,
 }
@@ -379,6 +395,14 @@ pub fn check(s: &Session, h: &History, stats: &mut Stats) -> Option<Violation> {
     let mut kinds_seen: Vec<String> = Vec::new();
     // operations take effect in stream order; probes are evaluated at quiescence after them
     let resp = h.responses();
+    // a server that announces another position encoding than UTF-16 has changed the contract for
+    // this session; the UTF-16 client model does not apply (none does at the pinned commit)
+    if let Some(enc) = resp.get(&0).and_then(|v| v.first()).and_then(|r| r["result"]["capabilities"]["positionEncoding"].as_str()) {
+        if enc != "utf-16" {
+            stats.negotiated_other_encoding += 1;
+            return None;
+        }
+    }
     let mut probe_results: BTreeMap<usize, Option<String>> = BTreeMap::new();
     for e in &h.events {
         if let Ev::Probe { op, text, .. } = e {
